@@ -16,6 +16,7 @@ import (
 
 	"github.com/scionproto/scion/pkg/drkey"
 	"github.com/scionproto/scion/pkg/slayers"
+	"github.com/scionproto/scion/pkg/slayers/path/epic"
 	"github.com/scionproto/scion/pkg/spao"
 
 	"example.com/scion-time/base/logbase"
@@ -174,12 +175,18 @@ func runSCIONServer(ctx context.Context, log *slog.Logger, mtrcs *scionServerMet
 			scionLayer.DstIA, scionLayer.SrcIA = scionLayer.SrcIA, scionLayer.DstIA
 			scionLayer.DstAddrType, scionLayer.SrcAddrType = scionLayer.SrcAddrType, scionLayer.DstAddrType
 			scionLayer.RawDstAddr, scionLayer.RawSrcAddr = scionLayer.RawSrcAddr, scionLayer.RawDstAddr
+			if epicPath, ok := scionLayer.Path.(*epic.Path); ok {
+				// the packet ID and the hop validation fields of the request are
+				// not valid for another packet: the reply to a request over an
+				// EPIC path takes the reversed SCION path
+				scionLayer.Path = epicPath.ScionPath
+			}
 			scionLayer.Path, err = scionLayer.Path.Reverse()
 			if err != nil {
 				log.LogAttrs(ctx, slog.LevelInfo, "failed to reverse path", slog.Any("error", err))
 				continue
 			}
-			// reversing may yield a path of another type (one-hop -> SCION)
+			// reversing may yield a path of another type (one-hop, EPIC -> SCION)
 			scionLayer.PathType = scionLayer.Path.Type()
 			scionLayer.NextHdr = slayers.L4SCMP
 
@@ -465,13 +472,19 @@ func runSCIONServer(ctx context.Context, log *slog.Logger, mtrcs *scionServerMet
 			scionLayer.DstIA, scionLayer.SrcIA = scionLayer.SrcIA, scionLayer.DstIA
 			scionLayer.DstAddrType, scionLayer.SrcAddrType = scionLayer.SrcAddrType, scionLayer.DstAddrType
 			scionLayer.RawDstAddr, scionLayer.RawSrcAddr = scionLayer.RawSrcAddr, scionLayer.RawDstAddr
+			if epicPath, ok := scionLayer.Path.(*epic.Path); ok {
+				// the packet ID and the hop validation fields of the request are
+				// not valid for another packet: the reply to a request over an
+				// EPIC path takes the reversed SCION path
+				scionLayer.Path = epicPath.ScionPath
+			}
 			scionLayer.Path, err = scionLayer.Path.Reverse()
 			if err != nil {
 				log.LogAttrs(ctx, slog.LevelInfo, "failed to reverse path", slog.Any("error", err))
 				updateTXTimestamp(clientID, rxt, txt0, &txt0) // no reply: drop the exchange
 				continue
 			}
-			// reversing may yield a path of another type (one-hop -> SCION)
+			// reversing may yield a path of another type (one-hop, EPIC -> SCION)
 			scionLayer.PathType = scionLayer.Path.Type()
 			scionLayer.NextHdr = slayers.L4UDP
 
